@@ -14,6 +14,10 @@ def check(tier, seed):
         pass
     d.add_units(fold_canaries(run_units(specs)))
     d.add_lean(NAT_LEAN + ["PV.C02_unit_left", "PV.C02_unit_right", "PV.C01_similarity"])
+    d.add_callsite_witness("callsite:second-quantization/coefficients-have-no-pole-on-shifted-occupations", "nof_battery.py", "sq_finding",
+                           "precondition of the multiplication contracts (A-SY1: coefficient arithmetic is point-wise on every occupation that is reached): the coefficient "
+                           "functions returned by solve_scalar have no pole on the occupations to which normal ordering shifts them.  It fails when a physical level of H_0 coincides with "
+                           "an unphysical one (E(n) = E(n - k) with n < k); the witness H_0 = N + N^2 is replayed on every run")
     d.assumptions += [NAT_NOTE,
                       INSTANCE_NOTE + "the Fock representation (operator -> matrix on a truncated Fock space, restricted to states at distance > order x degree from the edge) is "
                       "multiplicative and adjoint-preserving on those states because order-n terms move occupations by at most n x degree (locality lemma, not mechanised)",
